@@ -183,6 +183,16 @@ theorem C08_progress_after_last_unblock {h : List Ev} {s : State} (hr : run init
   obtain ⟨s', h1, ha, _⟩ := C08_progress hr1 (by simp [State.readers]) p hp
   exact ⟨_, s', by simp only [run, e]; exact h1, ha⟩
 
+/-- **No deadlock.** From EVERY reachable state — blocks held, creations half done, another
+    plugin inside the exclusive section — a pending registration can still complete: what is in
+    flight can finish, the blocks can be released, the section can be left, the plugin registers.
+    (Enabledness: a continuation exists; fairness of the Go scheduler is not modelled.) -/
+theorem C08_no_deadlock {h : List Ev} {s : State} (hr : run init h = some s)
+    (p : Pid) (hp : (s.pl p).phase = .idle) :
+    ∃ h' s', run s h' = some s' ∧ (s'.pl p).phase = .active ∧ s'.writer = none ∧ s'.readers = 0 := by
+  obtain ⟨h', s', r, a, w, h0⟩ := no_deadlock (good_run hr) hp
+  exact ⟨h', s', r, a, w, by simp [State.readers, h0]⟩
+
 /-- The lock is never stuck: whoever is in the exclusive section can leave it. -/
 theorem C08_section_terminates {h : List Ev} {s : State} (hr : run init h = some s)
     (q : Pid) (hw : s.writer = some q) :
@@ -215,6 +225,12 @@ example : run init [.block 0, .relay 0 1, .unblock 0] = none := by decide
 example : ∃ s, run init (register 7 ++ [.block 0, .record 0 1]) = some s ∧ s.readers > 0 ∧
     (s.pl 7).phase = .active ∧ 1 ∈ s.store ∧ 1 ∉ s.sent ∧ ¬ ExactlyOnce (s.pl 7) 1 :=
   ⟨_, rfl, by decide, by decide, by decide, by decide, by decide⟩
+
+/-- two blocks held, one creation recorded but not relayed, one relayed but not recorded, and a
+    plugin pending (a state `C08_no_deadlock` speaks about) -/
+example : ∃ s, run init [.block 0, .block 1, .record 0 1, .relay 1 2] = some s ∧ s.readers = 2 ∧
+    s.half = [(1, 2), (0, 1)] ∧ (s.pl 7).phase = .idle :=
+  ⟨_, rfl, by decide, by decide, by decide⟩
 
 /-- a pending registration behind an occupied exclusive section (hypothesis of `C08_progress`) -/
 example : ∃ s, run init [.syncBegin 3, .snapshot 3] = some s ∧ s.readers = 0 ∧
